@@ -181,6 +181,9 @@ def _rng(t, env, memo):
     if tag == 'app':
         f = t[1]
         args = t[2]
+        if f.endswith('TimeDelta::num_days') and len(args) == 1 and args[0][0] == 'app' and args[0][1].endswith('ops::Sub>::sub') \
+                and len(args[0][2]) == 2 and args[0][2][0] == args[0][2][1]:
+            return (0.0, 0.0)          # the number of days between a date and itself
         if f == 'acos':
             return (0.0, math.pi)
         if f == 'atan':
